@@ -410,6 +410,9 @@ def run(ctx):
     for i in range(nrep):
         mat = mats[i % len(mats)]
         base = periodic_day(rng, mat, "crossing" if i % 4 else rng.choice(["zero", "inf"]))
+        if i % 3 == 1:
+            # so heavily loaded that the life (2-3 days) is shorter than the number of stored days of the repeats
+            dc.scale_time_to_creep(base, rng.uniform(0.3, 0.45))
         a = run_life(base)
         for k in (2, 3, 4):
             what, c2 = rel_repeat(base, k)
